@@ -554,7 +554,17 @@ Definition match_all_filtered (sg_next : rval -> ctx -> gen rval) (v : rval) (c 
           | Some _ => gone (ncoords (RNode (snd kv)) (Some v) (Some k) ntp nanc)
           | None => gnil
           end))
-  | RNode (NLeaf _ _) | RNode (NSet _ _) | RCoords _ _ _ _ _ => gnil
+  | RNode (NSet _ els) =>       (* since the fix of F29: mirrors the set branch of the unfiltered handler *)
+      gfor els (fun e =>
+        let k := key_val e in
+        let ntp := tp_add tp (esc_sec (py_str k) tp) in
+        let nanc := (anc ++ [(v, k)])%list in
+        gfirst (sg_next (RNode e) (mkctx (Some v) (Some k) true ntp nanc)) (fun f =>
+          match f with
+          | Some _ => gone (ncoords (RNode e) (Some v) (Some k) ntp nanc)
+          | None => gnil
+          end))
+  | RNode (NLeaf _ _) | RCoords _ _ _ _ _ => gnil
   | _ =>
       gfor (enumerate (elems v)) (fun ie =>
         let '(i, e) := ie in
